@@ -1,4 +1,94 @@
 """Property-specific parts: component replays, pure-function vectors,
 reproducibility and pause/resume drivers."""
+import json
+import os
+import sys
+import time
+
+from . import core
+from .core import MachineryError
+
 CHECKS = {}
 EXTRA = {}
+
+API_INVS = {
+    "C01": (["I_exec", "I_claim", "I_pool"], ["A_noreclaim"]),
+    "C02": (["I_partition", "I_counts", "I_numprov"], ["A_refusedSync"]),
+    "C09": (["I_partition"], ["A_reserved"]),
+    "C19": (["I_idle"], []),
+}
+
+
+def api_part(pid, tier, out):
+    """Cluster operation histories: TLC explores every operation sequence of
+    spec/ClusterAPI.tla up to a depth bound; real histories executed on a
+    real Cluster are validated event by event against the same spec."""
+    invs, props = API_INVS[pid]
+    depth = 6 if tier == "quick" else 8
+    cfg = "SPECIFICATION ASpec\nCONSTANT MaxDepth = %d\n" % depth
+    cfg += "".join("INVARIANT %s\n" % i for i in invs) + "".join("PROPERTY %s\n" % p for p in props)
+    cfg += "CHECK_DEADLOCK FALSE\n"
+    r = core.run_tlc("MC_ClusterAPI", cfg, heap="12g")
+    if core.tlc_failed(r["out"]):
+        raise MachineryError("TLC failed on MC_ClusterAPI:\n" + r["out"][-3000:])
+    v = core.tlc_violation(r["out"])
+    out["states"] += r.get("states", 0)
+    out["transitions"] += r.get("transitions", 0)
+    out["samples"].append({"mc": "MC_ClusterAPI", "max_depth": depth, "invariants": invs, "properties": props,
+                           "states": r.get("states", 0), "violated": v, "wall_s": round(r["wall"], 1)})
+    if v:
+        i = r["out"].find("Error:")
+        path = core.write_replay(pid, "mc_api", {"kind": "mc", "family": "ClusterAPI", "violated": v,
+                                                  "tlc": r["out"][i:i + 20000]})
+        out["violations"].append(("design-level: %s violated for Cluster operation histories" % v, path))
+    batch, bdir = core.trace_batch("apibatch", tier)
+    prefix = pid + "."
+    mine = [x for x in batch["verdicts"] if x["kind"] == "L1" and x["what"].startswith(prefix)]
+    by_gid = {}
+    for x in mine:
+        by_gid.setdefault(x["gid"], []).append(x)
+    for gid, vs in sorted(by_gid.items())[:20]:
+        tr = core.load_trace(bdir, batch["meta"][gid])
+        clauses = sorted({x["what"] for x in vs})
+        path = core.write_replay(pid, "api", {"kind": "api", "property": pid, "clauses": clauses,
+                                              "ops": tr["ops"], "first_step": min(x["l"] for x in vs)})
+        out["violations"].append(("Cluster history %s: clauses %s" % (json.dumps(tr["ops"])[:200], ",".join(clauses)), path))
+    drift = [x for x in batch["verdicts"] if x["kind"] == "DRIFT"]
+    out["extra_traces"] = out.get("extra_traces", 0) + batch["ntraces"]
+    ec = out.setdefault("extra_cov", {})
+    ec["cluster_histories_executed"] = batch["ntraces"]
+    ec["cluster_history_events_validated"] = batch["steps"]
+    ec["cluster_history_l2_drift"] = len(drift)
+    if drift:
+        print("DRIFT(api): %d events of Cluster histories are not steps of spec/ClusterAPI; first %s"
+              % (len(drift), json.dumps(drift[0])))
+
+
+for _p in API_INVS:
+    EXTRA.setdefault(_p, []).append(api_part)
+
+
+def replay(rp, path):
+    if rp["kind"] == "api":
+        sys.path.insert(0, core.VERIF)
+        from harness import api_cluster as A
+        tr = A.run_history(A.api_cfg(), rp["ops"])
+        sd = core.scratch()
+        import shutil
+        try:
+            p = os.path.join(sd, "shard_00.json")
+            with open(p, "w") as f:
+                json.dump({"traces": [tr], "gids": [0]}, f)
+            r = core.validate_shard(p)
+        finally:
+            shutil.rmtree(sd, ignore_errors=True)
+        vs = [v for v in core.parse_verdicts(r["out"]) if v["kind"] == "L1"]
+        for v in vs:
+            print("clause %s fails at step %d" % (v["what"], v["l"]))
+        if any(v["what"] in rp["clauses"] for v in vs):
+            print("VIOLATION property=%s replay=%s" % (rp["property"], path))
+            return 1
+        print("not reproduced on the current tree")
+        return 0
+    print("unknown replay kind", rp.get("kind"))
+    return 2
